@@ -131,6 +131,7 @@ theorem exec_keysOk (st : St) (ops : List Op) (h : KeysOk st) : KeysOk (exec st 
   | cons op ops ih => exact ih _ (step_keysOk st op h)
 
 theorem KeysOk_init : KeysOk {} := by intro i; simp [Dict.keys]
+theorem KeysOk_initF (F : HId → Nat → Bool) : KeysOk (init F) := by intro i; simp [Dict.keys]
 
 /-! ### `ChainMap.__iter__` lists exactly the names that `in` finds -/
 
@@ -453,11 +454,12 @@ theorem snapshot_spec (fuel : Nat) : RecSpec (snapshot fuel) := by
 
 /-- corresponding answers of `snapshot[k]...` / `snapshot.k...` and `m[k]...`: the same loaded
 resource, or a sub-snapshot where the map has a sub-map, or an absent name (`AttributeError` where
-the map raises `KeyError`), or both went on to index a loaded resource -/
+the map raises `KeyError`), or the loader's exception in both, or both went on to index a loaded
+resource -/
 def ItemRel : Outcome Item → Outcome Item → Prop
   | .ok (.val v), .ok (.val w) => v = w
   | .ok (.smap _), .ok (.map _) => True
-  | .raised e, .raised e' => e = "AttributeError" ∧ e' = "KeyError"
+  | .raised e, .raised e' => (e = "AttributeError" ∧ e' = "KeyError") ∨ (e = "LoadError" ∧ e' = "LoadError")
   | .stuck, .stuck => True
   | _, _ => False
 
@@ -474,7 +476,7 @@ theorem mirror_step (st : St) (b d s : Nat) (i : MId) (k : String) (h : MirrorN 
     (match (sGetAttr1 st s k).2, (getItemPath st i [] k).2 with
       | .ok (.val v), .ok (.val w) => v = w
       | .ok (.smap s'), .ok (.map c) => (sGetAttr1 st s k).1 = st ∧ MirrorN st b d s' c
-      | .raised e, .raised e' => e = "AttributeError" ∧ e' = "KeyError"
+      | .raised e, .raised e' => (e = "AttributeError" ∧ e' = "KeyError") ∨ (e = "LoadError" ∧ e' = "LoadError")
       | _, _ => False) := by
   obtain ⟨_, hk⟩ := h
   obtain ⟨hn, hm⟩ := hk k
@@ -491,7 +493,13 @@ theorem mirror_step (st : St) (b d s : Nat) (i : MId) (k : String) (h : MirrorN 
       rw [ha] at hm
       cases a with
       | sub s' => exact hm.elim
-      | handle g' => simp only at hm; subst hm; exact ⟨rfl, rfl⟩
+      | handle g' =>
+        simp only at hm; subst hm
+        refine ⟨rfl, ?_⟩
+        cases hx : (callH st g').2 with
+        | none => simp [itemOf, hx]
+        | tok a n => simp [itemOf, hx]
+        | exc a n => simp [itemOf, hx]
   | none =>
     have hcont : ¬ (st.s s).handleNames.contains k = true := fun e => (hn.1 e) hc
     rw [hc] at hm
@@ -500,7 +508,7 @@ theorem mirror_step (st : St) (b d s : Nat) (i : MId) (k : String) (h : MirrorN 
     | none =>
       rw [hmk] at hm
       cases ha : Dict.get? (st.s s).attrs k with
-      | none => exact ⟨rfl, rfl, rfl⟩
+      | none => exact ⟨rfl, Or.inl ⟨rfl, rfl⟩⟩
       | some a => rw [ha] at hm; cases a <;> exact hm.elim
     | some c =>
       rw [hmk] at hm
@@ -650,9 +658,13 @@ theorem MirrorN.stable {st st' : St} {b b' d s : Nat} {i : MId} (hm : Stable st 
 def SameSnaps (st st' : St) : Prop := st'.snaps = st.snaps ∧ st'.snext = st.snext
 
 theorem callH_snaps (st : St) (g : HId) : SameSnaps st (callH st g).1 := by
+  unfold callH
   by_cases hc : (st.h g).cached = true
-  · simp only [callH, hc, if_true]; exact ⟨rfl, rfl⟩
-  · simp only [callH, hc]; exact ⟨rfl, rfl⟩
+  · rw [if_pos hc]; exact ⟨rfl, rfl⟩
+  · rw [if_neg hc]
+    by_cases hf : st.failing g ((st.h g).tries + 1) = true
+    · rw [if_pos hf]; exact ⟨rfl, rfl⟩
+    · rw [if_neg hf]; exact ⟨rfl, rfl⟩
 
 theorem getItemPath_snaps (st : St) (i : MId) (ps : List String) (last : String) :
     SameSnaps st (getItemPath st i ps last).1 := by
@@ -715,6 +727,7 @@ theorem step_stable (st : St) (op : Op) (h : op.mutates = false) : Stable st (st
   | set m key v => cases h
   | layer m => cases h
   | clear m => cases h
+  | reject m => exact Stable.refl st
   | getitem m key => exact of_snaps _ ht (getItemPath_snaps st m _ _)
   | get m key => exact Stable.refl st
   | chain m ks => exact of_snaps _ ht (chainItems_snaps st m ks)
